@@ -338,7 +338,9 @@ CHECKS = {
         level_note="independent matcher gn.Matches + completePath written from the documentation; in-memory stream double",
         rule=("cases are scenarios of 8-30 steps; non-trivial = a completed round with a non-empty result whose subscription has a glob in a non-final position or targets '*'; distinct = distinct hash of the scenario"),
         assumptions=COMMON + [SYNCTEST_ASSUMPTION],
-        parts=[dict(name="random", run="TestC05Random", checks=dict(quick=2500, thorough=50000), shards=dict(quick=4, thorough=16))],
+        parts=[dict(name="random", run="TestC05Random", checks=dict(quick=2500, thorough=50000), shards=dict(quick=4, thorough=16)),
+               # ONCE calls / POLL rounds racing writers of the matched leaves on the real scheduler
+               dict(name="stress", run="TestC05Stress", rapid=False, args=dict(quick=["-c05.stress=30"], thorough=["-c05.stress=600"]), shards=dict(quick=2, thorough=8))],
     ),
     "C07": dict(
         engine="subprop",
@@ -530,7 +532,8 @@ CHECKS = {
         assumptions=COMMON + [SYNCTEST_ASSUMPTION,
                               "path elements, key values, origins and targets are strings over {a,b,*} or (half of the scenarios) short strings containing '/', ':', '[', ']', '=', ',', ' ', NUL, the empty string and concatenations of those; only the exact string '*' is the wildcard, on either side",
                               "SubscriptionLists obey the gNMI origin rules (origin in the prefix or in the paths, not both; no prefix elements with a path origin)",
-                              "server part: STREAM subscriptions on an empty cache with targets a, b and every x+joiner+y over {a,b} (38 targets); the target-delete notification (sole delete of '*' without origin, which closes single-target streams) is not generated"],
+                              "server part: STREAM subscriptions on an empty cache with targets a, b and every x+joiner+y over {a,b} (38 targets); the target-delete notification (sole delete of '*' without origin, which closes single-target streams) is not generated",
+                              "server part: requests may carry any value in the fields the server does not implement (proto3 enums are open: mode / encoding numbers the enum does not name included); the server is expected to accept such a request as it accepts the plain one"],
         parts=[
             dict(name="exhaustive", run="TestC06Exhaustive", rapid=False),
             dict(name="random", run="TestC06Random", checks=dict(quick=20000, thorough=100000), shards=dict(quick=1, thorough=8)),
@@ -631,18 +634,34 @@ CHECKS = {
         engine="cacheprop",
         technique=("property testing (rapid): conservation laws of exported counters vs the real tree and vs per-call outcomes predicted by a model; "
                    "latency: generated window sets / precisions / sample schedules against a stubbed latency.Now with the harness's own slot bookkeeping; "
-                   "race: collector-shaped stress (one update stream per target + the two refresh loops) under the race detector, reports classified by frame pair"),
+                   "race: collector-shaped stress (one update stream per target + the two refresh loops) under the race detector, reports classified by frame pair; "
+                   "latency-long / cache-latency-long: the ratio window/refresh-period (100 .. 43200) and the lifetime of a window (up to 3x its size) as generated dimensions, "
+                   "compact scenarios expanded deterministically, harness bookkeeping slid incrementally (monotonic deques)"),
         level_text=("Histories with lifecycle calls and refreshes; after every step targetLeaves == number of non-metadata leaves stored == added - deleted; per submitted notification the deltas of "
                     "updated/suppressed/stale/future/empty equal the outcomes predicted by the model (accepted and fed, accepted and withheld, stale, future; each delete path counts as one update; "
-                    "atomic accepted counts its contained updates); after UpdateMetadata latestTimestamp == greatest accepted target timestamp. Counter part of C15; latency and race parts are separate parts of this check. Bounded exploration."),
+                    "atomic accepted counts its contained updates); after UpdateMetadata latestTimestamp == greatest accepted target timestamp. Counter part of C15; latency and race parts are separate parts of this check. Bounded exploration. "
+                    "Parts latency-long (latency.New/Compute/UpdateReset/UpdateLast) and cache-latency-long (cache.WithLatencyWindows + GnmiUpdate + UpdateMetadata, cache.Now/latency.Now stubbed, the "
+                    "meta/latency/window leaves judged after every refresh): 1-3 windows of 100, 1000, 1023/1024/1025, 1800, 2047/2048/2049, 3600, 4096/4097, 8192, 43200 (24h at 2s) or any 50-6000 "
+                    "refresh periods (incl. 1m/1h/24h at 2s together), played for window+1..5 refreshes up to 3x the window (up to 150000 refreshes); samples in every period (1-3 each), every n-th "
+                    "period (n = 2..50, size/1024, size/100) or in bursts only; 1-6 outliers (2-200x above / below the typical latency, zero, negative) in the first periods, in the periods that expire "
+                    "at the last refreshes, at positions aligned to 2/4/64/size-1024/size-1000 granules or anywhere, with ordinary samples in the 0-64 periods before and after them; refreshes on time, "
+                    "all a little late, skipped for 1-5 periods or for size/1024..size/100 periods, one delayed, extra ones inside a period. At every refresh every exported statistic of every window "
+                    "must lie within [smallest, largest] latency of the slots that end inside the window (avg: +- precision). Sensitivity (author's mutants, invisible to the older latency parts, "
+                    "caught within 60 cases): slots folded into size/1024 granules; sliding amortised when a window holds >1500 slots; max cached for 8 refreshes when >600 slots; the two oldest "
+                    "slots compacted when >3000 slots."),
         level_note="a rejected atomic notification is only required to bump its reject counter at least once; lifecycle-generated metadata updates are not judged per call",
         rule=("cases are histories of 1-60 steps over 1-2 targets; non-trivial = the history contains an accepted, a suppressed and a stale update, a delete that removed a leaf, "
               "and a ConnectError followed by Connect on the same target; distinct = distinct hash of the scenario. "
               "latency part: cases are (period, 1-3 windows, precision, 1-20 periods of 0-4 samples); non-trivial = a window with >=2 non-empty covered slots exported avg, max and min in one UpdateReset and a non-empty slot had slid out of a window that was exporting. "
-              "race part: a case is one round (fresh cache, 1-3 streams, both refresh loops); non-trivial = the first UpdateMetadata overlapped the streams, an UpdateMetadata ran between a Reset and the end of that stream, updates were accepted after a Reset and a Sync happened"),
+              "race part: a case is one round (fresh cache, 1-3 streams, both refresh loops); non-trivial = the first UpdateMetadata overlapped the streams, an UpdateMetadata ran between a Reset and the end of that stream, updates were accepted after a Reset and a Sync happened. "
+              "latency-long / cache-latency-long: a case is one compact history (period, windows in periods, precision, lifetime, base-sample pattern, bursts, outliers, refresh schedule); "
+              "non-trivial = a window of >=1000 periods exported a statistic at a refresh at which the expiry of a slot tightened that window's [smallest, largest] (its extreme latency had just left)"),
         assumptions=COMMON + ["cache.Now is stubbed with a scenario-controlled clock",
                               "latency.Now is stubbed with a scenario-controlled clock; UpdateReset is called exactly once per period (its documented use)",
-                              "race part: workloads are seeded, schedules are the real scheduler's (not reproducible); SetClient and option registration happen before the goroutines start, as their documentation requires"],
+                              "race part: workloads are seeded, schedules are the real scheduler's (not reproducible); SetClient and option registration happen before the goroutines start, as their documentation requires",
+                              "latency-long parts: |latency| <= 200 s for base samples and <= 1e15 ns for <=64 outliers so that the accumulated sums stay inside int64 (Options.AvgPrecision puts that on the caller); "
+                              "cache level: latencies of 1 ms .. 1000 s on fresh leaves of one synced target (every statistic is non-zero and re-set by each refresh of a non-empty window), a leaf that keeps its "
+                              "value after its window emptied is not judged; cache.New registers window names process-wide (metadata.RegisterLatencyMetadata), cases run one after another and use 22 window durations"],
         parts=[dict(name="random", run="TestC15Random", checks=dict(quick=5000, thorough=40000), shards=dict(quick=1, thorough=16)),
                dict(name="latency", run="TestC15Latency", checks=dict(quick=5000, thorough=50000), shards=dict(quick=1, thorough=8)),
                # the same bound with UpdateReset called off-schedule and late (Target.Reset calls it on every reconnect)
@@ -651,6 +670,9 @@ CHECKS = {
                dict(name="nested", run="TestC15Nested", checks=dict(quick=2500, thorough=30000), shards=dict(quick=1, thorough=8)),
                # cache-level latency bound: only updates accepted in sync (after Sync, before the next Reset) may influence what a refresh exports
                dict(name="cache-latency", run="TestC15CacheLatency", checks=dict(quick=3000, thorough=40000), shards=dict(quick=1, thorough=8)),
+               # windows of 100 .. 43200 refresh periods that live for up to 3x their size: latency package level, and through the cache
+               dict(name="latency-long", run="TestC15LatencyLong", checks=dict(quick=600, thorough=6000), shards=dict(quick=1, thorough=8)),
+               dict(name="cache-latency-long", run="TestC15CacheLatencyLong", checks=dict(quick=80, thorough=1000), shards=dict(quick=1, thorough=8)),
                dict(name="race", run="TestC15Race", rapid=False, race=True,
                     # several processes: some defects only show in a process's first round (first use of package-level state)
                     args=dict(quick=["-c15.rounds=60"], thorough=["-c15.rounds=1000"]), shards=dict(quick=3, thorough=8))],
@@ -669,7 +691,7 @@ CHECKS = {
               "random: 1-40 ops, depth<=4 over {a,b,c}, relative addressing, retained leaf handles). "
               "non-trivial = the sequence contains a failed Add, or a successful Add beneath a branch that an earlier delete pruned; "
               "distinct = distinct hash of the op sequence"),
-        assumptions=COMMON + ["stored values are non-nil (nil is the tree's 'empty' sentinel): ints in the exhaustive and random parts, values of seven kinds in the rich part", "Add/Get paths contain no element equal to '*' (documented precondition)"],
+        assumptions=COMMON + ["stored values are non-nil (nil is the tree's 'empty' sentinel): ints in the exhaustive and random parts, values of seven kinds in the rich part", "stored values are non-nil INTERFACE values (typed nil pointers/maps/slices/funcs are values and are generated); tree-related values (Children() maps, nodes, leaf handles) are taken from another tree, never from the tree they are stored in (a value reaching its own tree is a cycle, and the tree's error texts print values with %#v)", "Query visitors: only the path slice handed to the LAST invocation of a query is required to stay unchanged afterwards (on the unchanged tree the invocations of one Query may share a backing array from depth 4 on; the paths are compared at the instant of each invocation)", "Add/Get paths contain no element equal to '*' (documented precondition)"],
         parts=[
             dict(name="exhaustive", run="TestC09Exhaustive", rapid=False),
             dict(name="random", run="TestC09Random", checks=dict(quick=6000, thorough=40000), shards=dict(quick=1, thorough=16)),
@@ -860,7 +882,19 @@ EXT2 = {
                 level_note="; after a grant changed only the trace monitor applies (convergence is not defined then)"),
     "C08": dict(level_text=" Further: atomic containers reported again and again in bursts (duplicate count of a coalesced multi-update leaf), stream contexts with an RPC deadline."),
     "C09": dict(level_text=(" Further (random part): visits stopped by a visitor error after k invocations followed by structural writes, run under a structural blocked-call detector; path slices kept by "
-                            "Walk/WalkSorted visitors compared after the walk; every lookup through one re-used scratch slice; paths returned by Delete/DeleteConditional must be independent slices.")),
+                            "Walk/WalkSorted visitors compared after the walk; every lookup through one re-used scratch slice; paths returned by Delete/DeleteConditional must be independent slices."
+                            " Part alias (ownership of what crosses the API boundary, both directions, for Add/Get/GetLeaf/GetLeafValue/Query/Walk/WalkSorted/Delete/DeleteConditional/WalkDeleted/Children "
+                            "and visitor arguments): every argument is built in one of three re-used caller buffers (offset 0-2, spare capacity behind it) or a fresh slice with 0-3 spare slots and is "
+                            "overwritten after the call (junk, or other valid elements); the call must not write to any slot of the argument's backing array; every path slice obtained (returned by "
+                            "Delete/DeleteConditional, handed to a Walk/WalkSorted visitor, handed to the last invocation of a Query visitor) is kept, rewritten in place (also inside the visitor) or "
+                            "appended to, and must read the same after every later op and at the end of the sequence; a Children() map is emptied and refilled; the full observation set is compared "
+                            "with the model after every op. Part rich also stores (Add and Leaf.Update through a handle) values of eight further kinds a caller builds from the package's own API or that "
+                            "resemble the tree's representation: Children() snapshots and hand-built map[string]*ctree.Tree (empty, nil, with nil entries), *ctree.Tree, *ctree.Leaf (incl. nil pointers), "
+                            "ctree.Tree/ctree.Leaf by value, funcs, named map types/pointer to map/channel, empty-looking values (\"\", false, 0, nil slices, typed nil pointers); the model treats them as "
+                            "opaque (identity for maps/funcs/channels/pointers), compares GetLeafValue/GetLeaf/Get/IsBranch/Children/Walk/Query/WalkSorted after every op, Delete/DeleteConditional/"
+                            "WalkDeleted with glob paths and a condition on the dynamic type, and that the tree the values were taken from is never modified."),
+                rule=(" alias: cases are 1-40 ops with caller-owned buffers; non-trivial = a path slice obtained from the tree was kept across a later op and an argument buffer was re-used or overwritten."
+                      " rich (values): also non-trivial = a leaf holding a tree-related value (kinds 7-13) was overwritten, deleted, or an Add went through it.")),
     "C11": dict(level_text=(" Further: backlogs of 1000-9000 items worked down to fractions of their peak, a hot item inserted up to 70000 extra times, items of six kinds incl. the nil interface; stress: "
                             "Close from several goroutines at once and Close under fire (every insertion that returned before Close was called is delivered). Part window: the consumer parked between "
                             "its emptiness check and its select while inserts complete, the queue is closed and another goroutine holds the queue's mutex when it resumes; 24 repeats per case.")),
@@ -882,9 +916,20 @@ EXT2 = {
 }
 # round 5 (seeds I, J)
 EXT3 = {
+    "C06": dict(technique="; requests dressed with every field the server does not implement, compared with their undressed twin; virtual time passing between operations",
+                level_text=(" Server and atomic parts, a good third / half of the scenarios: every SubscribeRequest field subscribe.go never reads is given arbitrary values, per subscription "
+                            "independently - Subscription.mode (TARGET_DEFINED / ON_CHANGE / SAMPLE and numbers outside the enum), sample_interval, heartbeat_interval (1 ns - 1 h, MaxUint64), "
+                            "suppress_redundant, Path.target of a subscription path; SubscriptionList.qos, allow_aggregation, use_models, encoding; SubscribeRequest.extension (registered, master "
+                            "arbitration, history snapshot / range, commit, depth, config subscription, empty) - so that overlapping / identical / sibling paths of ONE request and of different "
+                            "subscribers carry different modes and intervals (a notification reaches one subscriber through two paths of different mode in 8% / 21% of the cases). Judged by the same "
+                            "oracles (offered iff compatible, once, trie census, others unaffected) plus: the same scenario without the dressing, run on a second server, must be observed alike step "
+                            "by step (offers per notification and subscriber, live RPCs, trie - real code on both sides); after virtual sleeps of 1 ms - 25 h (capped at 1000x the shortest interval "
+                            "a request names) and after every subscribe / end nothing may have reached any subscriber; while one notification is handed over no earlier one may be sent again; in "
+                            "half of the dressed scenarios all updates carry one value (redundant in the sense of suppress_redundant).")),
     "C07": dict(level_text=(" Further (a tenth of the scenarios): writer notifications handed to the exported per-target entry point of ANOTHER target than the one their prefix names "
                             "(cache.GetTarget(x).GnmiUpdate): stored in x's tree, every response built from them still names the prefix target, so a caller authorised for x and denied the named "
-                            "target must not be sent them (single-target and all-targets subscriptions alike)."),
+                            "target must not be sent them (single-target and all-targets subscriptions alike). 8% of the subscriptions begin with something that is not a request (half-close, Poll, no prefix, no target, "
+                            "empty message): with an unusable ACL backend the call must still end Unauthenticated with nothing sent."),
                 level_note="; scenarios with such a foreign write are judged by the trace monitors only (nothing denied is ever handed to Send; status codes), convergence is not defined for them"),
     "C12": dict(level_text=(" Every rapid part runs with a generated glog verbosity (-v 0-3) per case: the diagnostics inside `if log.V(n)` blocks format the very messages a peer sent.")),
     "C02": dict(level_text=(" Further: future thresholds that mean 'never reject' (time.Duration(MaxInt64), 2^62, 290 years: every sum of a threshold and a timestamp wraps); values in the deprecated "
@@ -901,9 +946,17 @@ EXT3 = {
                             "index returned by ToStrings (spare capacity included) are overwritten before the same input is converted again, and the second result must equal the first.")),
     "C03": dict(level_text=(" Further (also in the C02 profile): a structured 'big fan-out' shape, one case in about two hundred: one notification writes 300-4100 sibling leaves, a later one rewrites "
                             "a few, then a glob / subtree delete whose timestamp lies between the two removes more than a thousand leaves at once and must leave and not announce the newer ones.")),
+    "C05": dict(level_text=(" Further: paths of one request that read the same once their index strings are joined with '/' (a/b vs a, b); requests dressed with the fields the server does not "
+                            "implement (qos, encoding, per-subscription mode / sample_interval / heartbeat / suppress_redundant, drawn per subscription; also in C04/C07/C08/C14). Part stress "
+                            "(free-running, real scheduler inside a synctest bubble): 1-4 client goroutines issue ONCE calls / POLL rounds back to back while one writer goroutine per hot leaf keeps "
+                            "updating the leaves they match (value = serial number); every round carries every matching leaf, a static leaf with its value, a hot leaf with a serial number between the "
+                            "last update completed before the request and the last one started before its sync arrived; one sync per request, last; ONCE ends with success; glog verbosity 0-3 per workload."),
+                level_note="; stress part: schedules are the real scheduler's (a replay re-runs the workload 20 times); a deadlock is reported structurally (vstat.Watchdog), never by a timeout",
+                rule=" stress: a case is one workload (20-80 requests per client); non-trivial = >=2 hot leaves and >=20 completed rounds."),
     "C08": dict(level_text=(" Third structured shape (an eighth of the cases): a POLL client that stops reading and keeps sending 1-300 poll triggers (letting a send pass now and then) against an "
                             "unchanging cache, next to other subscribers: what it is sent after its last trigger is bounded by the distinct matching leaves + the response in flight + one sync marker, "
-                            "whatever the number of triggers; or it stays away and the next sleep step judges the send timeout of the POLL subscription.")),
+                            "whatever the number of triggers; or it stays away and the next sleep step judges the send timeout of the POLL subscription. "
+                            "Part huge: the stalled subscriber is STREAM, ONCE or POLL (the walk of a ONCE/POLL queues the whole target behind a sender blocked from the first response on).")),
     "C20": dict(technique=("; scripted sessions on ONE fake Client / ONE fake Agent (subscriber messages and lifecycle calls at exact positions of the emitted stream, quiescent points of a synctest bubble "
                            "as gates): the trace predicates per generation of the stream, and the metamorphic relation 'a generation equals what a fresh Client sends on an undisturbed subscription'"),
                 level_text=(" Part session: one fake/gnmi.Client lives through a generated script - 1-3 Client.Run calls (STREAM / ONCE / POLL SubscriptionList, or a stream that begins with something "
